@@ -356,7 +356,14 @@ func runTraceStock(k *vf.Case) {
 	if procKind == "simple" {
 		sp = sdktrace.NewSimpleSpanProcessor(exp)
 	} else {
-		sp = sdktrace.NewBatchSpanProcessor(exp, sdktrace.WithBatchTimeout(time.Millisecond))
+		bopts := []sdktrace.BatchSpanProcessorOption{sdktrace.WithBatchTimeout(time.Millisecond)}
+		if r.Bool() {
+			bopts = append(bopts, sdktrace.WithBlocking())
+		}
+		if r.Chance(1, 3) {
+			bopts = append(bopts, sdktrace.WithMaxQueueSize(vf.Pick(r, []int{1, 2, 8})), sdktrace.WithMaxExportBatchSize(vf.Pick(r, []int{1, 2, 8})))
+		}
+		sp = sdktrace.NewBatchSpanProcessor(exp, bopts...)
 	}
 	tp := sdktrace.NewTracerProvider(sdktrace.WithSpanProcessor(sp))
 	tr := tp.Tracer("stock")
@@ -649,6 +656,8 @@ func runLog(k *vf.Case) {
 	concurrent := r.Bool()
 	firstKind := ""
 	var wg sync.WaitGroup
+	var calls []func()
+	direct := false // some Shutdown call goes to the processor itself, not through the provider
 	for i := 0; i < nShut; i++ {
 		sctx, cancel, kind := ctxOf(r)
 		if concurrent && kind == "cancelled" {
@@ -657,9 +666,17 @@ func runLog(k *vf.Case) {
 		if i == 0 {
 			firstKind = kind
 		}
+		viaProcessor := r.Chance(1, 3) // the processor can also be shut down directly (it may be shared)
+		direct = direct || viaProcessor
 		do := func() {
 			defer cancel()
-			if err := lp.Shutdown(sctx); err != nil && kind == "live" {
+			var err error
+			if viaProcessor {
+				err = proc.Shutdown(sctx)
+			} else {
+				err = lp.Shutdown(sctx)
+			}
+			if err != nil && kind == "live" {
 				fail("shutdown-error", "", err.Error())
 			}
 		}
@@ -667,10 +684,29 @@ func runLog(k *vf.Case) {
 			wg.Add(1)
 			go func() { defer wg.Done(); do() }()
 		} else {
-			do()
+			calls = append(calls, do)
 		}
 	}
-	wg.Wait()
+	// every Shutdown call returns, however the earlier ones ended (watchdog + two identical stack samples)
+	finished, stuck, wdesc := vf.Watch(20*time.Second, 2*time.Second, func() {
+		for _, f := range calls {
+			f()
+		}
+		wg.Wait()
+		// and once more with live contexts (on the processor itself only if it was addressed directly before)
+		if direct {
+			proc.Shutdown(ctx)
+		}
+		lp.Shutdown(ctx)
+	})
+	if !finished {
+		if stuck {
+			fail("blocks-forever", "Shutdown after earlier Shutdown calls", wdesc)
+		} else {
+			k.C.Inconclusive("log shutdown sequence did not finish")
+		}
+		return
+	}
 	time.Sleep(300 * time.Microsecond)
 	outLen, exports := buf.Len(), rec.exports.Load()
 	l2 := lp.Logger("later")
@@ -695,19 +731,25 @@ func runLog(k *vf.Case) {
 		emit(lg)
 	}
 	time.Sleep(3 * time.Millisecond)
+	// "exactly once" is the provider's guarantee: the log SimpleProcessor is a plain adapter that forwards
+	// every direct Shutdown call to its exporter, so programs that address the processor directly are
+	// held to "no panic, every call returns" only
 	if firstKind != "cancelled" {
-		if expKind == "recording" && rec.shutdowns.Load() != 1 {
+		if expKind == "recording" && rec.shutdowns.Load() != 1 && !direct {
 			fail("exporter-shutdown-count", "", fmt.Sprintf("%d", rec.shutdowns.Load()))
 		}
 		if buf.Len() != outLen || rec.exports.Load() != exports {
 			fail("exported-after-shutdown", "", fmt.Sprintf("output grew by %d bytes / %d records", buf.Len()-outLen, rec.exports.Load()-exports))
 		}
 	}
-	if rec.shutdowns.Load() > 1 {
+	if rec.shutdowns.Load() > 1 && !direct {
 		fail("exporter-shut-down-twice", "", fmt.Sprint(rec.shutdowns.Load()))
 	}
 	if expKind == "nil" {
 		k.C.Count("programs_with_nil_exporter", 1)
+	}
+	if direct {
+		k.C.Count("log_programs_shutting_the_processor_down_directly", 1)
 	}
 	k.C.Count("log_programs", 1)
 	k.C.Sig("log|" + desc + fmt.Sprintf("|%d|%v|%s", nShut, concurrent, firstKind))
@@ -897,25 +939,62 @@ func runTraceConcurrent(k *vf.Case) {
 // "stopped" check wait for a queue slot nobody will free once the worker has drained and left),
 // and the symmetric shapes of the log batch processor and the periodic reader.
 
+// exporters that take their time (and do not look at the context, like a slow backend) and note when each
+// Export call was entered and left
+type exportLog struct {
+	mu    sync.Mutex
+	spans [][2]uint64 // entry / exit tickets of every Export call
+}
+
+func (l *exportLog) run(d time.Duration) {
+	in := vf.Tick()
+	time.Sleep(d)
+	out := vf.Tick()
+	l.mu.Lock()
+	l.spans = append(l.spans, [2]uint64{in, out})
+	l.mu.Unlock()
+}
+
 type slowSpanExp struct {
+	exportLog
 	d         time.Duration
 	shutdowns atomic.Int32
 }
 
 func (e *slowSpanExp) ExportSpans(ctx context.Context, ss []sdktrace.ReadOnlySpan) error {
-	time.Sleep(e.d)
+	e.run(e.d)
 	return nil
 }
 func (e *slowSpanExp) Shutdown(context.Context) error { e.shutdowns.Add(1); return nil }
 
 type slowLogExp struct {
+	exportLog
 	d         time.Duration
 	shutdowns atomic.Int32
 }
 
-func (e *slowLogExp) Export(context.Context, []sdklog.Record) error { time.Sleep(e.d); return nil }
+func (e *slowLogExp) Export(context.Context, []sdklog.Record) error { e.run(e.d); return nil }
 func (e *slowLogExp) Shutdown(context.Context) error                { e.shutdowns.Add(1); return nil }
 func (e *slowLogExp) ForceFlush(context.Context) error              { return nil }
+
+type slowMetricExp struct {
+	exportLog
+	d         time.Duration
+	shutdowns atomic.Int32
+}
+
+func (e *slowMetricExp) Temporality(k sdkmetric.InstrumentKind) metricdata.Temporality {
+	return sdkmetric.DefaultTemporalitySelector(k)
+}
+func (e *slowMetricExp) Aggregation(k sdkmetric.InstrumentKind) sdkmetric.Aggregation {
+	return sdkmetric.DefaultAggregationSelector(k)
+}
+func (e *slowMetricExp) Export(context.Context, *metricdata.ResourceMetrics) error {
+	e.run(e.d)
+	return nil
+}
+func (e *slowMetricExp) ForceFlush(context.Context) error { return nil }
+func (e *slowMetricExp) Shutdown(context.Context) error   { e.shutdowns.Add(1); return nil }
 
 func runShutdownRace(k *vf.Case) {
 	r := k.R
@@ -931,6 +1010,7 @@ func runShutdownRace(k *vf.Case) {
 	var emit func(i int)
 	var flush, shutdown func(ctx context.Context) error
 	var shutdownCount func() int32
+	var elog *exportLog
 	switch kind {
 	case "bsp-blocking", "bsp-dropping":
 		e := &slowSpanExp{d: d}
@@ -941,26 +1021,28 @@ func runShutdownRace(k *vf.Case) {
 		tp := sdktrace.NewTracerProvider(sdktrace.WithSpanProcessor(sdktrace.NewBatchSpanProcessor(e, opts...)))
 		tr := tp.Tracer("f")
 		emit = func(int) { _, sp := tr.Start(context.Background(), "s"); sp.End() }
-		flush, shutdown, shutdownCount = tp.ForceFlush, tp.Shutdown, e.shutdowns.Load
+		flush, shutdown, shutdownCount, elog = tp.ForceFlush, tp.Shutdown, e.shutdowns.Load, &e.exportLog
 	case "log-batch":
 		e := &slowLogExp{d: d}
 		lp := sdklog.NewLoggerProvider(sdklog.WithProcessor(sdklog.NewBatchProcessor(e, sdklog.WithMaxQueueSize(vf.Pick(r, []int{1, 2, 8})), sdklog.WithExportMaxBatchSize(vf.Pick(r, []int{1, 2, 8})),
 			sdklog.WithExportInterval(vf.Pick(r, []time.Duration{time.Millisecond, time.Hour})), sdklog.WithExportBufferSize(vf.Pick(r, []int{1, 2})))))
 		lg := lp.Logger("f")
 		emit = func(i int) { var rec log.Record; rec.SetBody(log.IntValue(i)); lg.Emit(context.Background(), rec) }
-		flush, shutdown, shutdownCount = lp.ForceFlush, lp.Shutdown, e.shutdowns.Load
+		flush, shutdown, shutdownCount, elog = lp.ForceFlush, lp.Shutdown, e.shutdowns.Load, &e.exportLog
 	default:
-		e := &recMetricExp{}
+		e := &slowMetricExp{d: d}
 		rd := sdkmetric.NewPeriodicReader(e, sdkmetric.WithInterval(vf.Pick(r, []time.Duration{time.Millisecond, time.Hour})), sdkmetric.WithTimeout(time.Second))
 		mp := sdkmetric.NewMeterProvider(sdkmetric.WithReader(rd))
 		ctr, _ := mp.Meter("f").Int64Counter("c")
 		emit = func(i int) { ctr.Add(context.Background(), 1) }
-		flush, shutdown, shutdownCount = mp.ForceFlush, mp.Shutdown, e.shutdowns.Load
+		flush, shutdown, shutdownCount, elog = mp.ForceFlush, mp.Shutdown, e.shutdowns.Load, &e.exportLog
 	}
 	var wg sync.WaitGroup
 	release := make(chan struct{})
 	var mu sync.Mutex
 	var panics []string
+	var lastShutdownRet atomic.Uint64 // ticket at which the last of the Shutdown calls returned
+	var shutdownFailed atomic.Bool
 	guard := func(f func()) {
 		wg.Add(1)
 		go func() {
@@ -1000,8 +1082,18 @@ func runShutdownRace(k *vf.Case) {
 				runtime.Gosched()
 			}
 			ctx, cancel := context.WithTimeout(context.Background(), 10*time.Second)
-			shutdown(ctx)
+			err := shutdown(ctx)
+			ret := vf.Tick()
 			cancel()
+			if err != nil {
+				shutdownFailed.Store(true)
+			}
+			for {
+				cur := lastShutdownRet.Load()
+				if cur >= ret || lastShutdownRet.CompareAndSwap(cur, ret) {
+					break
+				}
+			}
 		})
 	}
 	finished, stuck, desc := vf.Watch(30*time.Second, 2*time.Second, func() { close(release); wg.Wait() })
@@ -1021,6 +1113,24 @@ func runShutdownRace(k *vf.Case) {
 	}
 	if n := shutdownCount(); n != 1 {
 		k.Violate("exporter-shutdown-count", "shutdown race "+kind, fmt.Sprint(n), nil)
+	}
+	// nothing is being exported any more once every Shutdown call has returned successfully (a call that
+	// overlaps the one doing the work may return earlier at provider level; the statement is read for the
+	// moment all of them are back)
+	if sret := lastShutdownRet.Load(); sret != 0 && !shutdownFailed.Load() {
+		time.Sleep(2 * d) // let a straggler finish and log itself
+		elog.mu.Lock()
+		for _, sp := range elog.spans {
+			if sp[1] > sret {
+				what := "was still running when"
+				if sp[0] > sret {
+					what = "was started after"
+				}
+				k.Violate("export-after-shutdown-returned", kind, fmt.Sprintf("an Export call %s the last Shutdown call returned nil (entered at ticket %d, left at %d, Shutdown returned at %d)", what, sp[0], sp[1], sret), nil)
+				break
+			}
+		}
+		elog.mu.Unlock()
 	}
 }
 
